@@ -7,23 +7,33 @@ import (
 	"diagonal.works/b6/encoding"
 )
 
-// vhVal is an arbitrary 64-bit value. In the quick tier it is drawn from the
-// value classes that select different code paths of the codecs (one-byte
-// varints, bit 62 set = zigzag/delta extremes, bit 63 set = explicit
-// namespace form); the thorough tier leaves it unconstrained.
+// vhVal is a 64-bit value drawn from the value classes that select different
+// code paths of the codecs (one-byte varints, bit 63 set = explicit namespace
+// form and wrapping deltas, bit 62 set = zigzag extremes). VH_C11_ReferencesFull
+// leaves the values unconstrained.
 func vhVal(name string) uint64 {
 	v := vU64(name)
-	if vTier() == 0 {
-		switch vChoice(name+"class", 3) {
-		case 0:
-			vAssume(v < 1<<7)
-		case 1:
-			vAssume(v >= 1<<62 && v < 1<<63)
-		case 2:
-			vAssume(v >= 1<<63)
-		}
+	// bases x 6 free low bits: every pair of values then has a delta whose
+	// varint length is one of one or two sizes, which keeps the number of
+	// byte-layout paths small. Quick: {0, 2^63}; thorough adds 2^62.
+	low := v & 63
+	switch vChoice(name+"class", 2+vTier()) {
+	case 0:
+		vAssume(v == low)
+	case 1:
+		vAssume(v == 1<<63|low)
+	case 2:
+		vAssume(v == 1<<62|low)
 	}
 	return v
+}
+
+// vhSize is a length 0..q (quick) / 0..t (thorough).
+func vhSize(name string, q, t int) int {
+	if vTier() == 0 {
+		return vChoice(name, q+1)
+	}
+	return vChoice(name, t+1)
 }
 
 // vhTN is a type-and-namespace that is either the primary, or another one.
@@ -33,6 +43,9 @@ func vhTN(name string, primary TypeAndNamespace) TypeAndNamespace {
 	}
 	tn := TypeAndNamespace(vU16(name))
 	vAssume(tn != primary)
+	if vTier() == 0 {
+		vAssume(tn < 64) // one-byte varint form only
+	}
 	return tn
 }
 
@@ -46,16 +59,21 @@ func vhRefs(name string, n int, primary TypeAndNamespace) References {
 
 func vhRefsEqual(a, b References, what string) {
 	vAssert(len(a) == len(b), what+": length")
+	ns, vs := true, true
 	for i := range a {
-		vAssert(a[i].TypeAndNamespace == b[i].TypeAndNamespace, what+": namespace")
-		vAssert(a[i].Value == b[i].Value, what+": value")
+		ns = vAnd(ns, a[i].TypeAndNamespace == b[i].TypeAndNamespace)
+		vs = vAnd(vs, a[i].Value == b[i].Value)
 	}
+	vAssert(ns, what+": namespace")
+	vAssert(vs, what+": value")
 }
 
 func vhBytesEqual(a, b []byte, n int, what string) {
+	ok := true
 	for i := 0; i < n; i++ {
-		vAssert(a[i] == b[i], what)
+		ok = vAnd(ok, a[i] == b[i])
 	}
+	vAssert(ok, what)
 }
 
 // C11: reference lists with and without the primary namespace.
@@ -81,6 +99,25 @@ func VH_C11_References() {
 	vhBytesEqual(buf, buf2, w, "References: second marshal is stable")
 }
 
+// C11: reference lists with unconstrained 64-bit values (every varint length).
+//
+//vh:tier=thorough steps=3000000 split=4
+func VH_C11_ReferencesFull() {
+	primary := TypeAndNamespace(vU16("primary"))
+	n := vChoice("n", 3)
+	rs := make(References, n)
+	for i := range rs {
+		rs[i] = Reference{TypeAndNamespace: vhTN("rtn", primary), Value: vU64("rv")}
+	}
+	buf := make([]byte, 24*n+16)
+	w := rs.Marshal(primary, buf)
+	var out References
+	r := out.Unmarshal(primary, buf)
+	vReach("references-full")
+	vAssert(r == w, "References: bytes consumed == bytes written")
+	vhRefsEqual(out, rs, "References")
+}
+
 // C11: lat/lng lists (E7 int32 pairs, deltas wrap).
 //
 //vh:steps=3000000 split=3
@@ -89,12 +126,13 @@ func VH_C11_LatLngs() {
 	lls := make(LatLngs, n)
 	for i := range lls {
 		lls[i] = LatLng{LatE7: vI32("lat"), LngE7: vI32("lng")}
-		if vTier() == 0 && i > 0 {
-			// keep the varint case split small: deltas are tiny or huge
-			d := lls[i].LatE7 - lls[i-1].LatE7
-			vAssume((d > -64 && d < 64) || d > 1<<28 || d < -(1<<28))
-			e := lls[i].LngE7 - lls[i-1].LngE7
-			vAssume((e > -64 && e < 64) || e > 1<<28 || e < -(1<<28))
+		if vTier() == 0 {
+			// keep the varint case split small: latitudes are tiny or near the
+			// int32 extremes (so deltas are tiny or wrap), longitudes tiny
+			l := lls[i].LatE7
+			vAssume((l > -64 && l < 64) || l > 0x7fffffc0 || l < -0x7fffffc0)
+			e := lls[i].LngE7
+			vAssume(e > -64 && e < 64)
 		}
 	}
 	buf := make([]byte, 20*n+16)
@@ -104,9 +142,11 @@ func VH_C11_LatLngs() {
 	vReach("latlngs")
 	vAssert(r == w, "LatLngs: bytes consumed == bytes written")
 	vAssert(len(out) == n, "LatLngs: length")
+	ok := true
 	for i := range out {
-		vAssert(out[i].LatE7 == lls[i].LatE7 && out[i].LngE7 == lls[i].LngE7, "LatLngs: point survives")
+		ok = vAll(ok, out[i].LatE7 == lls[i].LatE7, out[i].LngE7 == lls[i].LngE7)
 	}
+	vAssert(ok, "LatLngs: point survives")
 }
 
 // C11: mixed reference / lat-lng lists.
@@ -135,15 +175,20 @@ func VH_C11_ReferencesAndLatLngs() {
 	vReach("mixed")
 	vAssert(r == w, "ReferencesAndLatLngs: bytes consumed == bytes written")
 	vAssert(len(out) == n, "ReferencesAndLatLngs: length")
+	okr, okl := true, true
 	for i := range out {
-		vAssert(out[i].Reference == g[i].Reference, "ReferencesAndLatLngs: reference survives")
-		vAssert(out[i].LatLng == g[i].LatLng, "ReferencesAndLatLngs: lat/lng survives")
+		okr = vAnd(okr, out[i].Reference == g[i].Reference)
+		okl = vAnd(okl, out[i].LatLng == g[i].LatLng)
 	}
+	vAssert(okr, "ReferencesAndLatLngs: reference survives")
+	vAssert(okl, "ReferencesAndLatLngs: lat/lng survives")
 }
 
-// C11: bit sets up to 17 bits.
+// C11: bit sets.
+//
+//vh:split=4
 func VH_C11_Bits() {
-	n := vChoice("n", 18)
+	n := vChoice("n", 10+4*vTier()) // 0..9 (quick) / 0..13 bits: crosses the byte boundary
 	b := make(Bits, n)
 	for i := range b {
 		b[i] = vBool("b")
@@ -155,9 +200,11 @@ func VH_C11_Bits() {
 	vReach("bits")
 	vAssert(r == w, "Bits: bytes consumed == bytes written")
 	vAssert(len(out) == n, "Bits: length")
+	ok := true
 	for i := range out {
-		vAssert(out[i] == b[i], "Bits: bit survives")
+		ok = vAnd(ok, out[i] == b[i])
 	}
+	vAssert(ok, "Bits: bit survives")
 }
 
 // C11: relation members.
@@ -165,12 +212,15 @@ func VH_C11_Bits() {
 //vh:steps=3000000 split=4
 func VH_C11_Members() {
 	primary := TypeAndNamespace(vU16("primary"))
-	n := vChoice("n", 3)
+	n := vhSize("n", 2, 2)
 	ms := make(Members, n)
 	for i := range ms {
-		ms[i].Type = b6.FeatureType(vChoice("type", 4))
+		ms[i].Type = b6.FeatureType(vU8("type"))
+		vAssume(ms[i].Type < 4)
 		ms[i].Role = int(vU32("role"))
 		if vTier() == 0 {
+			vAssume(ms[i].Role < 64 || ms[i].Role == 1<<31)
+		} else {
 			vAssume(ms[i].Role < 128 || ms[i].Role > 1<<30)
 		}
 		ms[i].ID = Reference{TypeAndNamespace: vhTN("tn", primary), Value: vhVal("v")}
@@ -183,11 +233,15 @@ func VH_C11_Members() {
 	vAssert(r == w, "Members: bytes consumed == bytes written")
 	vAssert(len(out) == n, "Members: length")
 	vAssert(MarshalledMembers(buf).Len() == n, "MarshalledMembers.Len")
+	okt, okr, oki := true, true, true
 	for i := range out {
-		vAssert(out[i].Type == ms[i].Type, "Members: type survives")
-		vAssert(out[i].Role == ms[i].Role, "Members: role survives")
-		vAssert(out[i].ID == ms[i].ID, "Members: id survives")
+		okt = vAnd(okt, out[i].Type == ms[i].Type)
+		okr = vAnd(okr, out[i].Role == ms[i].Role)
+		oki = vAnd(oki, out[i].ID == ms[i].ID)
 	}
+	vAssert(okt, "Members: type survives")
+	vAssert(okr, "Members: role survives")
+	vAssert(oki, "Members: id survives")
 }
 
 // C11: area geometry by path references (polygon boundaries + path list).
@@ -195,10 +249,10 @@ func VH_C11_Members() {
 //vh:steps=3000000 split=4
 func VH_C11_AreaGeometryReferences() {
 	primary := TypeAndNamespace(vU16("primary"))
-	np := vChoice("paths", 4) // 0..3 paths
+	np := vhSize("paths", 2, 3)
 	paths := vhRefs("p", np, primary)
 	// polygon boundaries: a non-decreasing list of offsets into paths
-	nb := vChoice("bounds", 3)
+	nb := vhSize("bounds", 1, 2)
 	bounds := make([]int, nb)
 	for i := range bounds {
 		bounds[i] = vChoice("b", np+1)
@@ -216,9 +270,11 @@ func VH_C11_AreaGeometryReferences() {
 	out, ok := g.(*AreaGeometryReferences)
 	vAssert(ok, "UnmarshalAreaGeometry returns the references encoding")
 	vAssert(len(out.Polygons) == nb, "AreaGeometryReferences: polygon count")
+	okb := true
 	for i := range bounds {
-		vAssert(out.Polygons[i] == bounds[i], "AreaGeometryReferences: polygon boundary survives")
+		okb = vAnd(okb, out.Polygons[i] == bounds[i])
 	}
+	vAssert(okb, "AreaGeometryReferences: polygon boundary survives")
 	vhRefsEqual(out.Paths, paths, "AreaGeometryReferences paths")
 	vAssert(out.Len() == a.Len(), "AreaGeometryReferences: Len")
 	// the type's own Unmarshal
@@ -230,9 +286,13 @@ func VH_C11_AreaGeometryReferences() {
 
 func vhPolygonLatLngs(name string) PolygonGeometryLatLngs {
 	var p PolygonGeometryLatLngs
-	np := vChoice(name+"points", 4)
+	np := vhSize(name+"points", 2, 3)
 	for i := 0; i < np; i++ {
-		p.Points = append(p.Points, LatLng{LatE7: int32(vI8(name + "lat")), LngE7: int32(vI8(name + "lng"))})
+		ll := LatLng{LatE7: int32(vI8(name + "lat")), LngE7: int32(vI8(name + "lng"))}
+		if vTier() == 0 {
+			vAssume(ll.LatE7 >= -32 && ll.LatE7 < 32 && ll.LngE7 >= -32 && ll.LngE7 < 32)
+		}
+		p.Points = append(p.Points, ll)
 	}
 	nl := vChoice(name+"loops", 2)
 	for i := 0; i < nl; i++ {
@@ -243,20 +303,24 @@ func vhPolygonLatLngs(name string) PolygonGeometryLatLngs {
 
 func vhPolygonLatLngsEqual(a, b *PolygonGeometryLatLngs, what string) {
 	vAssert(len(a.Loops) == len(b.Loops), what+": loop count")
+	ok := true
 	for i := range a.Loops {
-		vAssert(a.Loops[i] == b.Loops[i], what+": loop boundary")
+		ok = vAnd(ok, a.Loops[i] == b.Loops[i])
 	}
+	vAssert(ok, what+": loop boundary")
 	vAssert(len(a.Points) == len(b.Points), what+": point count")
+	ok = true
 	for i := range a.Points {
-		vAssert(a.Points[i] == b.Points[i], what+": point")
+		ok = vAnd(ok, a.Points[i] == b.Points[i])
 	}
+	vAssert(ok, what+": point")
 }
 
 // C11: area geometry by lat/lng loops.
 //
 //vh:steps=3000000 split=4
 func VH_C11_AreaGeometryLatLngs() {
-	n := vChoice("polygons", 3)
+	n := vhSize("polygons", 2, 2)
 	a := &AreaGeometryLatLngs{}
 	for i := 0; i < n; i++ {
 		a.Polygons = append(a.Polygons, vhPolygonLatLngs("p"))
@@ -287,9 +351,16 @@ func VH_C11_AreaGeometryMixed() {
 	for i := 0; i < n; i++ {
 		var p PolygonGeometryMixed
 		if vBool("byref") {
-			p.References.Paths = vhRefs("p", 1+vChoice("np", 2), primary)
-		} else {
+			p.References.Paths = vhRefs("p", 1+vhSize("np", 0, 1), primary)
+		} else if vTier() == 1 {
 			p.LatLngs = vhPolygonLatLngs("q")
+		} else {
+			if vBool("haspoint") {
+				p.LatLngs.Points = LatLngs{{LatE7: int32(vI8("qlat") & 31), LngE7: int32(vI8("qlng") & 31)}}
+			}
+			if vBool("hasloop") {
+				p.LatLngs.Loops = []int{len(p.LatLngs.Points)}
+			}
 		}
 		a.Polygons = append(a.Polygons, p)
 	}
@@ -310,6 +381,20 @@ func VH_C11_AreaGeometryMixed() {
 	var out2 AreaGeometryMixed
 	r2 := out2.Unmarshal(primary, buf)
 	vAssert(r2 == w, "AreaGeometryMixed.Unmarshal: bytes consumed == bytes written")
+}
+
+// vhTagsQ is the tag list of a composite record: the full generator in the
+// thorough tier, at most one string-valued tag in the quick tier (tag lists
+// have their own harness, VH_C11_Tags).
+func vhTagsQ(name string, tns TypeAndNamespace) Tags {
+	if vTier() == 1 {
+		return vhTags(name, vChoice(name+"ntags", 2), tns)
+	}
+	if !vBool(name + "hastag") {
+		return Tags{}
+	}
+	v := Int(vU8(name + "str"))
+	return Tags{{Key: int(vU8(name + "key")), Value: &v}}
 }
 
 // vhTags builds a tag list with string (table index), point and path values.
@@ -362,9 +447,11 @@ func vhTagsEqual(a, b Tags, what string) {
 			y, ok := a[i].Value.(*LatLngs)
 			vAssert(ok, what+": value kind (lat/lngs)")
 			vAssert(len(*y) == len(*x), what+": lat/lng count")
+			same := true
 			for j := range *x {
-				vAssert((*y)[j] == (*x)[j], what+": lat/lng")
+				same = vAnd(same, (*y)[j] == (*x)[j])
 			}
+			vAssert(same, what+": lat/lng")
 		}
 	}
 }
@@ -374,7 +461,7 @@ func vhTagsEqual(a, b Tags, what string) {
 //vh:steps=3000000 split=4
 func VH_C11_Tags() {
 	tns := TypeAndNamespace(vU16("tns"))
-	n := vChoice("n", 3)
+	n := vhSize("n", 1, 2)
 	ts := vhTags("t", n, tns)
 	buf := make([]byte, 256)
 	w := ts.Marshal(tns, buf)
@@ -420,7 +507,7 @@ func VH_C11_Points() {
 	nss := vhNamespaces()
 	pathPrimary := CombineTypeAndNamespace(b6.FeatureTypePath, nss.ForType(b6.FeatureTypePath))
 	relPrimary := CombineTypeAndNamespace(b6.FeatureTypeRelation, nss.ForType(b6.FeatureTypeRelation))
-	tags := vhTags("t", vChoice("ntags", 2), TypeAndNamespaceInvalid)
+	tags := vhTagsQ("t", TypeAndNamespaceInvalid)
 	buf := make([]byte, 256)
 	if vBool("common") {
 		c := CommonPoint{Tags: tags, Path: Reference{TypeAndNamespace: vhTN("ptn", pathPrimary), Value: vhVal("pv")}}
@@ -441,8 +528,8 @@ func VH_C11_Points() {
 		return
 	}
 	p := FullPoint{Tags: tags}
-	p.Paths = vhRefs("path", vChoice("npaths", 3), pathPrimary)
-	p.Relations = vhRefs("rel", vChoice("nrels", 2), relPrimary)
+	p.Paths = vhRefs("path", vhSize("npaths", 2, 2), pathPrimary)
+	p.Relations = vhRefs("rel", vhSize("nrels", 1, 1), relPrimary)
 	// Marshal sorts both lists (order is documented as unimportant)
 	wantPaths := append(References{}, p.Paths...)
 	wantRels := append(References{}, p.Relations...)
@@ -480,9 +567,9 @@ func vhSameMultiset(a, b References, what string) {
 func VH_C11_Path() {
 	nss := vhNamespaces()
 	pointPrimary := CombineTypeAndNamespace(b6.FeatureTypePoint, nss[b6.FeatureTypePoint])
-	p := Path{Tags: vhTags("t", vChoice("ntags", 2), pointPrimary)}
-	p.Areas = vhRefs("area", vChoice("nareas", 3), CombineTypeAndNamespace(b6.FeatureTypeArea, nss[b6.FeatureTypeArea]))
-	p.Relations = vhRefs("rel", vChoice("nrels", 2), CombineTypeAndNamespace(b6.FeatureTypeRelation, nss[b6.FeatureTypeRelation]))
+	p := Path{Tags: vhTagsQ("t", pointPrimary)}
+	p.Areas = vhRefs("area", vhSize("nareas", 2, 2), CombineTypeAndNamespace(b6.FeatureTypeArea, nss[b6.FeatureTypeArea]))
+	p.Relations = vhRefs("rel", vhSize("nrels", 1, 1), CombineTypeAndNamespace(b6.FeatureTypeRelation, nss[b6.FeatureTypeRelation]))
 	wantAreas := append(References{}, p.Areas...)
 	wantRels := append(References{}, p.Relations...)
 	wantTags := append(Tags{}, p.Tags...)
@@ -504,13 +591,13 @@ func VH_C11_Area() {
 	nss := vhNamespaces()
 	pathPrimary := CombineTypeAndNamespace(b6.FeatureTypePath, nss.ForType(b6.FeatureTypePath))
 	relPrimary := CombineTypeAndNamespace(b6.FeatureTypeRelation, nss.ForType(b6.FeatureTypeRelation))
-	a := Area{Tags: vhTags("t", vChoice("ntags", 2), TypeAndNamespaceInvalid)}
-	paths := vhRefs("p", 1+vChoice("npaths", 2), pathPrimary)
+	a := Area{Tags: vhTagsQ("t", TypeAndNamespaceInvalid)}
+	paths := vhRefs("p", 1+vhSize("npaths", 0, 1), pathPrimary)
 	a.Polygons = &AreaGeometryReferences{Polygons: []int{}, Paths: paths}
 	// relations an area belongs to: written by the builder with the relation's
 	// own namespace (see fillAreaRelations), which may or may not be the
 	// block's relation namespace
-	a.Relations = vhRefs("rel", vChoice("nrels", 3), relPrimary)
+	a.Relations = vhRefs("rel", vhSize("nrels", 2, 2), relPrimary)
 	wantRels := append(References{}, a.Relations...)
 	buf := make([]byte, 256)
 	w := a.Marshal(nss, buf)
@@ -531,15 +618,15 @@ func VH_C11_Area() {
 //vh:steps=4000000 split=5
 func VH_C11_Relation() {
 	nss := vhNamespaces()
-	primaryType := b6.FeatureType(vChoice("primary", 4))
+	primaryType := b6.FeatureType(vChoice("primary", 2+2*vTier())) // point, path (quick); + area, relation
 	primary := CombineTypeAndNamespace(primaryType, nss.ForType(primaryType))
 	relPrimary := CombineTypeAndNamespace(b6.FeatureTypeRelation, nss.ForType(b6.FeatureTypeRelation))
-	rel := Relation{Tags: vhTags("t", vChoice("ntags", 2), TypeAndNamespaceInvalid)}
-	n := vChoice("nmembers", 3)
+	rel := Relation{Tags: vhTagsQ("t", TypeAndNamespaceInvalid)}
+	n := vhSize("nmembers", 1, 2) // members are coded independently of each other; VH_C11_Members has lists
 	for i := 0; i < n; i++ {
-		rel.Members = append(rel.Members, Member{Type: b6.FeatureType(vChoice("mtype", 4)), Role: int(vU8("role")), ID: Reference{TypeAndNamespace: vhTN("mtn", primary), Value: vhVal("mv")}})
+		rel.Members = append(rel.Members, Member{Type: b6.FeatureType(vU8("mtype") & 3), Role: int(vU8("role") & 7), ID: Reference{TypeAndNamespace: vhTN("mtn", primary), Value: vhVal("mv")}})
 	}
-	rel.Relations = vhRefs("rel", vChoice("nrels", 2), relPrimary)
+	rel.Relations = vhRefs("rel", vhSize("nrels", 1, 1), relPrimary)
 	buf := make([]byte, 256)
 	w := rel.Marshal(primaryType, nss, buf)
 	var out Relation
@@ -548,36 +635,40 @@ func VH_C11_Relation() {
 	vAssert(r == w, "Relation: bytes consumed == bytes written")
 	vhTagsEqual(out.Tags, rel.Tags, "Relation tags")
 	vAssert(len(out.Members) == n, "Relation: member count")
+	okm := true
 	for i := range out.Members {
-		vAssert(out.Members[i] == rel.Members[i], "Relation: member survives")
+		okm = vAnd(okm, out.Members[i] == rel.Members[i])
 	}
+	vAssert(okm, "Relation: member survives")
 	vhRefsEqual(out.Relations, rel.Relations, "Relation relations")
 	vAssert(MarshalledRelation(buf).Len() == n, "MarshalledRelation.Len")
 	var ms Members
 	MarshalledRelation(buf).UnmarshalMembers(primaryType, nss, &ms)
 	vAssert(len(ms) == n, "UnmarshalMembers: count")
+	okm = true
 	for i := range ms {
-		vAssert(ms[i] == rel.Members[i], "UnmarshalMembers: member survives")
+		okm = vAnd(okm, ms[i] == rel.Members[i])
 	}
+	vAssert(okm, "UnmarshalMembers: member survives")
 }
 
 // C11: strings, posting-list headers, token maps.
 //
 //vh:steps=4000000
 func VH_C11_StringsAndHeaders() {
-	s := vStr("s", vChoice("len", 4))
+	s := vStr("s", vhSize("len", 2, 3))
 	buf := make([]byte, 64)
 	w := MarshalString(s, buf)
 	out, r := UnmarshalString(buf)
 	vReach("strings")
 	vAssert(r == w && out == s, "MarshalString round-trips")
 	vAssert(MarshalledStringEquals(buf, s), "MarshalledStringEquals on the same string")
-	other := vStr("o", vChoice("olen", 4))
+	other := vStr("o", vhSize("olen", 2, 3))
 	if other != s {
 		vAssert(!MarshalledStringEquals(buf, other), "MarshalledStringEquals on a different string")
 	}
 	h := PostingListHeader{Token: s, Features: int(vU32("features"))}
-	nn := vChoice("nns", 3)
+	nn := vhSize("nns", 1, 2)
 	for i := 0; i < nn; i++ {
 		h.Namespaces = append(h.Namespaces, NamespaceIndex{TypeAndNamespace: TypeAndNamespace(vU16("tn")), Index: int(vU16("idx"))})
 	}
@@ -588,9 +679,11 @@ func VH_C11_StringsAndHeaders() {
 	vAssert(hr == hw, "PostingListHeader: bytes consumed == bytes written")
 	vAssert(ho.Token == s && ho.Features == h.Features, "PostingListHeader: token and feature count survive")
 	vAssert(len(ho.Namespaces) == nn, "PostingListHeader: namespace count")
+	okn := true
 	for i := range ho.Namespaces {
-		vAssert(ho.Namespaces[i] == h.Namespaces[i], "PostingListHeader: namespace index survives")
+		okn = vAnd(okn, ho.Namespaces[i] == h.Namespaces[i])
 	}
+	vAssert(okn, "PostingListHeader: namespace index survives")
 	vAssert(PostingListHeaderToken(hb) == s, "PostingListHeaderToken")
 	vAssert(PostingListHeaderTokenEquals(hb, s), "PostingListHeaderTokenEquals")
 }
@@ -600,7 +693,7 @@ func VH_C11_StringsAndHeaders() {
 //
 //vh:steps=6000000
 func VH_C11_TokenMap() {
-	n := 1 + vChoice("n", 3)
+	n := 1 + vhSize("n", 1, 2)
 	toks := make([]string, n)
 	idx := make([]int, n)
 	e := NewTokenMapEncoder()
